@@ -53,6 +53,158 @@ def denote(e, ctors):
     return None
 
 
+class Opaque(Exception):
+    pass
+
+
+def pat_sem(p, atoms):
+    """boolean expression tree of a pattern position: ('atom', name) / ('const', b) / ('and', a, b); raises Opaque for shapes outside the fragment"""
+    k = p.get('k')
+    if k == 'Bind':
+        atoms.add(p['n'])
+        return ('atom', p['n'])
+    if k == 'Wild':
+        raise Opaque('wildcard')
+    if k == 'PTupleStruct':
+        v = p['d'].split('::')[-1]
+        if v == 'And' and len(p['p']) == 2:
+            return ('and', pat_sem(p['p'][0], atoms), pat_sem(p['p'][1], atoms))
+        if v == 'Value' and len(p['p']) == 1:
+            inner = p['p'][0]
+            if inner.get('k') == 'PTupleStruct' and inner['d'].split('::')[-1] == 'Bool' and inner['p'] and inner['p'][0].get('k') == 'PLit':
+                return ('const', bool(inner['p'][0]['v'].get('bool')))
+        if v == 'Or' and len(p['p']) == 1 and p['p'][0].get('k') == 'Bind':
+            atoms.add(p['p'][0]['n'])
+            return ('atom', p['p'][0]['n'])         # the set as one opaque disjunction
+        if v == 'Not' and len(p['p']) == 1:
+            return ('not', pat_sem(p['p'][0], atoms))
+    raise Opaque(k)
+
+
+def expr_sem(e, atoms):
+    e = T.peel(e)
+    k = e.get('k')
+    if k == 'Block' and 'e' in e and not e.get('s'):
+        return expr_sem(e['e'], atoms)
+    if k == 'Local':
+        if e['n'] in atoms:
+            return ('atom', e['n'])
+        raise Opaque('local ' + e['n'])
+    if k == 'Binary' and e.get('op') in ('&', '|'):
+        return ('and' if e['op'] == '&' else 'or', expr_sem(e['x'], atoms), expr_sem(e['y'], atoms))
+    if k == 'Unary' and e.get('op') == '!':
+        return ('not', expr_sem(e['x'], atoms))
+    if k == 'Path':
+        last = T.last_seg(e.get('d') or '')
+        if last in ('TRUE', 'FALSE'):
+            return ('const', last == 'TRUE')
+    if k == 'Call':
+        fn = e.get('fn') or ''
+        last = T.last_seg(fn)
+        if last == 'new' and 'Box' in fn and e['a']:
+            return expr_sem(e['a'][0], atoms)
+        if last in ('And', 'and') and len(e['a']) == 2:
+            return ('and', expr_sem(e['a'][0], atoms), expr_sem(e['a'][1], atoms))
+        if last in ('or',) and len(e['a']) == 2:
+            return ('or', expr_sem(e['a'][0], atoms), expr_sem(e['a'][1], atoms))
+        if last == 'Not' and len(e['a']) == 1:
+            return ('not', expr_sem(e['a'][0], atoms))
+    if k == 'MCall' and e['n'] in ('clone', 'as_ref', 'to_owned') and not e['a']:
+        return expr_sem(e['r'], atoms)
+    raise Opaque(T.show(e)[:30])
+
+
+def evalb(t, asg):
+    if t[0] == 'atom':
+        return asg[t[1]]
+    if t[0] == 'const':
+        return t[1]
+    if t[0] == 'not':
+        return not evalb(t[1], asg)
+    a, b = evalb(t[1], asg), evalb(t[2], asg)
+    return (a and b) if t[0] == 'and' else (a or b)
+
+
+def leaves_with_conds(e, conds=()):
+    """(value expression, [(cond expr, taken?)]) for every way the arm body can produce its value"""
+    e = T.peel(e)
+    if e.get('k') == 'Block':
+        if e.get('s'):
+            return [(None, conds)]          # statements before the value: outside the fragment
+        if 'e' in e:
+            return leaves_with_conds(e['e'], conds)
+        return [(None, conds)]
+    if e.get('k') == 'If' and e.get('e') is not None:
+        return leaves_with_conds(e['t'], conds + ((e['c'], True),)) + leaves_with_conds(e['e'], conds + ((e['c'], False),))
+    return [(e, conds)]
+
+
+def combinator_rule(chk, fx, rid='C32-comb'):
+    import itertools
+    chk.rule(rid, 'every arm and branch of Predicate::and / Predicate::or whose pattern and result lie in the propositional fragment (bound sub-predicates, And, Not, TRUE/FALSE, '
+                         '`&`, `|`, Box::new) returns a predicate equivalent to the conjunction / disjunction of its two arguments, under the equalities its branch conditions state '
+                         '(truth table over the bound names)')
+    for fname, op in (('Predicate::and', 'and'), ('Predicate::or', 'or')):
+        f = fx.fn(FILE, fname)
+        ms = [n for n in T.stmts_of(f['body']) if T.unsemi(n).get('k') == 'Match']
+        if not chk.need(len(ms) == 1, '%s: expected one match' % fname):
+            continue
+        decided = 0
+        for ai, arm in enumerate(T.unsemi(ms[0])['arms']):
+            alts = arm['pat']['p'] if arm['pat'].get('k') == 'POr' else [arm['pat']]
+            for alt in alts:
+                if alt.get('k') != 'PTuple' or len(alt['p']) != 2:
+                    continue
+                atoms = set()
+                try:
+                    want = (op, pat_sem(alt['p'][0], atoms), pat_sem(alt['p'][1], atoms))
+                except Opaque:
+                    continue
+                if arm.get('g'):
+                    continue
+                for li, (leaf, conds) in enumerate(leaves_with_conds(arm['b'])):
+                    if leaf is None:
+                        continue
+                    try:
+                        got = expr_sem(leaf, atoms)
+                    except Opaque:
+                        continue
+                    # branch conditions: equalities between bound names
+                    eqs, opaque_cond = [], False
+                    for c, taken in conds:
+                        c = T.peel(c)
+                        if c.get('k') == 'Binary' and c.get('op') == '==':
+                            try:
+                                a, b = expr_sem(c['x'], atoms), expr_sem(c['y'], atoms)
+                            except Opaque:
+                                opaque_cond = True
+                                continue
+                            if taken:
+                                eqs.append((a, b))
+                        else:
+                            opaque_cond = opaque_cond or taken
+                    names = sorted(atoms)
+                    bad_asg = None
+                    for bits in itertools.product((False, True), repeat=len(names)):
+                        asg = dict(zip(names, bits))
+                        if any(evalb(a, asg) != evalb(b, asg) for a, b in eqs):
+                            continue
+                        if evalb(got, asg) != evalb(want, asg):
+                            bad_asg = asg
+                            break
+                    decided += 1
+                    inst = '%s:arm%d:%s:%d' % (fname.split('::')[-1], ai, T.show(alt)[:24].replace(' ', ''), li)
+                    if bad_asg is None:
+                        chk.ok(rid, inst, sample='%s %s => %s%s' % (fname, T.show(alt)[:40], T.show(leaf)[:40], (' when ' + ' and '.join(T.show(c)[:30] for c, t in conds if t)) if any(t for _, t in conds) else ''))
+                    else:
+                        chk.bad(rid, fname, 'arm%d:leaf%d' % (ai, li), '%s on `%s`%s returns `%s`, which is not the %s of its arguments: for %s the arguments give %s and the result %s '
+                                '(a conjunct is dropped / added)' % (fname, T.show(alt)[:50], (' when ' + ' and '.join(T.show(c)[:40] for c, t in conds if t)) if any(t for _, t in conds) else '',
+                                                                     T.show(leaf)[:50], 'conjunction' if op == 'and' else 'disjunction',
+                                                                     ', '.join('%s=%s' % (k, 'T' if v else 'F') for k, v in bad_asg.items()), evalb(want, bad_asg), evalb(got, bad_asg)),
+                                FILE, leaf.get('l') or arm['l'])
+        chk.floor('decided branches of %s' % fname, decided, 8 if op == 'and' else 3)
+
+
 def run(chk):
     fx = F.Facts()
     chk.rule('C32-invert', 'Predicate::invert maps every comparison atom (Equal, NotEqual, GreaterEqual, LessEqual and their General* forms) to a predicate denoting the complement set '
@@ -133,6 +285,9 @@ def run(chk):
                     chk.ok('C32-const', 'or(%s,%s)' % (a, b), sample='or(%s c, %s c) denotes %s' % (a, b, sorted(got)))
                 else:
                     chk.bad('C32-const', 'Predicate::or', 'or(%s,%s)' % (a, b), 'or(%s c, %s c) yields a predicate denoting %s, the union is %s' % (a, b, sorted(got), sorted(SETS[a] | SETS[b])), FILE, arm['l'])
+    combinator_rule(chk, fx)
+    return ('Table rule over the resolved arms of Predicate::invert / and / or under the three-orderings model, and a propositional equivalence check of every decidable arm / '
+            'branch of Predicate::and and Predicate::or (truth tables over the bound sub-predicates, branch conditions as equalities). Or-sets are opaque atoms.'), {'exhaustive': True}
     return ('Table rule over the resolved arms of Predicate::invert / and / or under the three-orderings model. Nested trees, Or-sets and absorption are not decided.'), {'exhaustive': True}
 
 
